@@ -136,6 +136,7 @@ struct Item {
 struct ReaderStep {
     int reader;
     bool mandatory;
+    int bufmode = 0;   // CopyText: 0 roomy buffer, 1 exact fit (content + NUL), 2 one byte short, 3 two bytes
 };
 struct HandlerScript {
     int policy = 0;   // 0: ERR iff a reader raised an error; 1: always OK; 2: always ERR silently; 3: push own code then ERR; 4: push own code then OK; 5: NULL callback
@@ -223,7 +224,7 @@ struct PRun {
     }
 
     // one reader applied to item `it` (nullptr: absent). returns true if the reader raised an error.
-    bool apply(int reader, bool mandatory, const Item *it, PlannedUnit &pu, bool malformed, int inner_of = -1) {
+    bool apply(int reader, bool mandatory, const Item *it, PlannedUnit &pu, bool malformed, int inner_of = -1, int bufmode = 0) {
         scpi_t *c = w.ctx;
         size_t mark = w.errs.size();
         bool ret = false;
@@ -237,7 +238,17 @@ struct PRun {
         memset(&num, 0, sizeof num);
         scpi_bool_t b = FALSE;
         int32_t ch = 0;
-        char *tb = (char *) malloc(300);
+        // the handler's text buffer: roomy, or sized to the item (exact-size allocation: an overrun lands in an ASan red zone)
+        size_t tbn = 300;
+        std::string str_content;
+        bool have_content = it && !malformed && it->cls == C_STR && is_str(it->lit, &str_content);
+        if (reader == R_COPYTEXT && have_content && bufmode) {
+            if (bufmode == 1) tbn = str_content.size() + 1;
+            else if (bufmode == 2) tbn = str_content.size();
+            else tbn = 2;
+            COUNT(bufmode == 1 ? "probe_text_buffer_exact_fit" : "probe_text_buffer_too_small");
+        }
+        char *tb = (char *) malloc(tbn);
         size_t tlen = 0;
         const char *ptr = nullptr;
         size_t plen = 0;
@@ -253,7 +264,7 @@ struct PRun {
             case R_NUMBER: ret = SCPI_ParamNumber(c, scpi_special_numbers_def, &num, mandatory); break;
             case R_BOOL: ret = SCPI_ParamBool(c, &b, mandatory); break;
             case R_CHOICE: ret = SCPI_ParamChoice(c, trig_choice, &ch, mandatory); break;
-            case R_COPYTEXT: ret = SCPI_ParamCopyText(c, tb, 300, &tlen, mandatory); break;
+            case R_COPYTEXT: ret = SCPI_ParamCopyText(c, tb, tbn, &tlen, mandatory); break;
             case R_BLOCK: ret = SCPI_ParamArbitraryBlock(c, &ptr, &plen, mandatory); break;
             case R_CHARS: ret = SCPI_ParamCharacters(c, &ptr, &plen, mandatory); break;
             default: ret = SCPI_Parameter(c, &raw, mandatory); break;
@@ -269,7 +280,8 @@ struct PRun {
                 v.fail("error-flag", fmt("reader=%s flag=%d raised=%d", rn.c_str(), (int) SCPI_ParamErrorOccurred(c), any_in_unit),
                        fmt("after %s: SCPI_ParamErrorOccurred()=%d but %s error was raised in this unit", rn.c_str(), (int) SCPI_ParamErrorOccurred(c), any_in_unit ? "an" : "no"));
         }
-        std::string copied(tb, tlen < 300 ? tlen : 300);
+        std::string copied(tb, tlen < tbn ? tlen : tbn);
+        bool nul_ok = tlen >= tbn || tb[tlen] == 0;
         free(tb);
         bool raised = !codes.empty();
         if (v.violated) return raised;
@@ -364,9 +376,18 @@ struct PRun {
                 case R_COPYTEXT: {
                     std::string content;
                     is_str(it->lit, &content);
-                    cmp = true;
-                    got = copied;
-                    exp = content;
+                    if (tbn > content.size()) {
+                        // the buffer holds the text and its NUL: delivered whole and terminated
+                        cmp = true;
+                        got = copied + (nul_ok ? "" : "<no NUL>");
+                        exp = content;
+                    } else {
+                        // too small a buffer: only "a prefix, terminated when a byte remains" is asserted
+                        cmp = true;
+                        bool prefix = copied.size() <= content.size() && content.compare(0, copied.size(), copied) == 0 && tlen <= tbn && nul_ok;
+                        got = prefix ? "prefix" : ("\"" + copied + "\"");
+                        exp = "prefix";
+                    }
                     break;
                 }
                 case R_BLOCK: {
@@ -488,7 +509,7 @@ struct PRun {
                 continue;
             }
             const Item *it = (!malformed && next < pu.items.size()) ? &pu.items[next] : nullptr;
-            bool raised = apply(st.reader, st.mandatory, it, pu, malformed);
+            bool raised = apply(st.reader, st.mandatory, it, pu, malformed, -1, st.bufmode);
             if (it) next++;
             if (raised) {
                 any_error = true;
@@ -538,7 +559,7 @@ void execute_c05(const Plan &plan, Verdict &v) {
             if (h.own_code == 0 || h.own_code == -350 || h.own_code == -200 || h.own_code == -108) h.own_code = -222;   // codes the accounting itself uses
             run.scripts.push_back(h);
         } else if (op.kind == "rd" && !run.scripts.empty()) {
-            run.scripts.back().steps.push_back(ReaderStep{(int) clampl(op.arg(0), 0, R_NREADERS - 1), op.arg(1) != 0});
+            run.scripts.back().steps.push_back(ReaderStep{(int) clampl(op.arg(0), 0, R_NREADERS - 1), op.arg(1) != 0, (int) clampl(op.arg(2), 0, 3)});
         } else if (op.kind == "u") {
             if (!in_msg) {
                 msgs.push_back(PlannedMsg());
@@ -904,8 +925,10 @@ void generate_c05(Rng &r, const GenOpts &g, Plan &p) {
             int rd = (int) r.below(R_NREADERS);
             bool mand = seen_optional ? false : r.chance(2, 3);
             if (!mand) seen_optional = true;
-            sig.push_back(ReaderStep{rd, mand});
-            p.ops.push_back(Op("rd", {rd, mand ? 1 : 0}));
+            long bufmode = (rd == R_COPYTEXT && r.chance(1, 2)) ? r.range(1, 3) : 0;
+            if (bufmode == 3 && r.chance(1, 2)) bufmode = 1;
+            sig.push_back(ReaderStep{rd, mand, (int) bufmode});
+            p.ops.push_back(Op("rd", {rd, mand ? 1 : 0, bufmode}));
         }
         sigs.push_back(sig);
     }
@@ -978,7 +1001,7 @@ const Property C05 = {
     generate_c05,
     execute_c05,
     {"probe_absent_mandatory", "probe_absent_optional", "probe_surplus_parameters", "probe_silent_handler_failure", "probe_blank_before_comma", "probe_malformed_list",
-     "probe_several_messages_in_one_call", "fault_handler_fails_silently", "fault_error_pushed_by_handler", "probe_handler_pushes_status_event_code", "probe_null_callback_unit", "probe_trailing_blanks", "probe_block_item_of_64k_or_more"},
+     "probe_several_messages_in_one_call", "fault_handler_fails_silently", "fault_error_pushed_by_handler", "probe_handler_pushes_status_event_code", "probe_null_callback_unit", "probe_trailing_blanks", "probe_block_item_of_64k_or_more", "probe_text_buffer_exact_fit", "probe_text_buffer_too_small"},
     "1..3 input calls of 1..3 messages of 1..4 units; every unit pairs one of 1..4 seeded handler signatures (0..4 steps drawn from 15 readers incl. arrays, mandatory/"
     "optional, four return policies) with a list of 0..5 items whose class and value are known by construction (DEC incl. .5 forms, DEC+suffix known/unknown, #H/#Q/#B, "
     "mnemonics in/outside the bool/choice/special lists, both quote styles, blocks, expressions), blanks on either side of commas, malformed fragments on the last unit; "
